@@ -14,6 +14,7 @@ import (
 	"github.com/cockroachdb/errors"
 
 	"verifharness/core"
+	"verifharness/gen"
 	sa "verifharness/sites/a"
 	sb "verifharness/sites/b"
 	sc "verifharness/sites/common"
@@ -114,11 +115,20 @@ func checkStack(c *core.Ctx, name, tuple string, err error, want sc.Frame) {
 		c.Violate("first-frame/"+name, "first frame of the captured stack is not the expected caller",
 			fmt.Sprintf("%s\ngot  %s %s:%d\nwant %s %s:%d", tuple, gotFn, f.AbsPath, f.Lineno, want.Func, want.File, want.Line))
 	}
-	// the INNERMOST stack wins: wrapping the result with another stack here must not change the answer
-	if f2, l2, fn2, ok2 := errors.GetOneLineSource(errors.WithStack(errors.WithHint(err, "h"))); true {
-		f1, l1, fn1, ok1 := errors.GetOneLineSource(err)
+	// the INNERMOST stack wins: wrapping the result — with another stack, with foreign
+	// wrappers that expose only Cause() or only Unwrap() — must not change the answer
+	f1, l1, fn1, ok1 := errors.GetOneLineSource(err)
+	for wn, w := range map[string]error{
+		"WithStack(WithHint)":   errors.WithStack(errors.WithHint(err, "h")),
+		"Cause-only":            &gen.CauseWrap{C: err, Msg: "w"},
+		"Unwrap-only":           &gen.NoFmtWrap{C: err, Msg: "w"},
+		"WithStack(Cause-only)": errors.WithStack(&gen.CauseWrap{C: err, Msg: "w"}),
+		"Wrap(Unwrap-only)":     errors.Wrap(&gen.NoFmtWrap{C: err, Msg: "w"}, "p"),
+		"fmt.Errorf(%w)":        fmt.Errorf("x: %w", err),
+	} {
+		f2, l2, fn2, ok2 := errors.GetOneLineSource(w)
 		if f1 != f2 || l1 != l2 || fn1 != fn2 || ok1 != ok2 {
-			c.Violate("one-line-source-innermost/"+name, "GetOneLineSource does not report the innermost stack", fmt.Sprintf("%s\n%s:%d %s vs %s:%d %s", tuple, f1, l1, fn1, f2, l2, fn2))
+			c.Violate("one-line-source-innermost/"+wn, "GetOneLineSource does not report the innermost stack through a wrapper", fmt.Sprintf("%s under %s\n%s:%d %s (%v) vs %s:%d %s (%v)", tuple, wn, f1, l1, fn1, ok1, f2, l2, fn2, ok2))
 		}
 	}
 	file, line, fn, ok := errors.GetOneLineSource(err)
